@@ -10,7 +10,8 @@
    batch <k=v>... jobs=<work>|<env>|<file>;...  -> verdicts=... racy=.. unmod=.. (runT_seq: one RunT call, subtests in sequence)
    keys: coe ree uniq upd dl cancelled (0/1; dl = the deadline of the run is reached while the
    script is blocked on a sleeping helper, cancelled = the context is done from the start), work hdir helper file (hex), env (hex K=V items, comma
-   separated), hc (<hexname>:0|1,...), cc (none | <dflt>[,<hexname>:<t|f|e>]...),
+   separated), hc (<hexname>:0|1,...: short net link symlink gc gccgo), goos goarch (hex), gominor
+   (decimal: the toolchain is go1.<gominor>), cc (none | <dflt>[,<hexname>:<t|f|e>]...),
    cmds (<hexname>:p|f|n,...), main (<hex>,...), watch (<hex>,...).  "-" = empty. *)
 let split_on c s = if s = "-" || s = "" then [] else String.split_on_char c s
 
@@ -36,6 +37,9 @@ let config_of kv : config =
   { c_continue = flag kv "coe"; c_explicit_exec = flag kv "ree"; c_unique = flag kv "uniq";
     c_update = flag kv "upd";
     c_host_conds = List.map (fun (a, b) -> (bytes_of_hex a, b = "1")) (pairs (get kv "hc" "-"));
+    c_goos = bytes_of_hex (get kv "goos" "-");
+    c_goarch = bytes_of_hex (get kv "goarch" "-");
+    c_go_minor = n_of_int (int_of_string (get kv "gominor" "0"));
     c_custom_cond = (match get kv "cc" "none" with
       | "none" -> None
       | s -> (match split_on ',' s with
@@ -110,7 +114,9 @@ let do_cli kv =
   let jobs = List.map (fun it -> match String.split_on_char '|' it with
       | [w; f] ->
           let work = bytes_of_hex w in
-          { j_work = work; j_env = (bytes_of_string "WORK", work) :: env; j_file = bytes_of_hex f }
+          { j_work = work;
+            j_env = (bytes_of_string "WORK", work) :: (bytes_of_string "TMPDIR", work @ bytes_of_string "/.tmp") :: env;
+            j_file = bytes_of_hex f }
       | _ -> failwith "bad job") (split_on ';' (get kv "jobs" "-")) in
   let finals = List.map (fun j -> (run_file cfg j.j_work j.j_env j.j_file).r_final) jobs in
   Printf.sprintf "exit=%d verdicts=%s racy=%s unmod=%s" (int_of_n (cli_exit cfg jobs))
